@@ -680,7 +680,7 @@ fn bal_body(c: &BalTlsCase, _ch: &Chooser) -> Outcome {
                 BalStep::CallOk | BalStep::CallMustNotPass => {
                     let must_pass = *step == BalStep::CallOk;
                     let mut client = EchoClient::new(channel.clone());
-                    let limit = if must_pass { Duration::from_secs(20) } else { Duration::from_millis(1500) };
+                    let limit = if must_pass { Duration::from_secs(5) } else { Duration::from_millis(1500) };
                     let r = tokio::time::timeout(limit, client.unary(Request::new(vec![1]))).await;
                     let ok = matches!(&r, Ok(Ok(resp)) if resp.get_ref() == &vec![7u8]);
                     trace.push(format!("Call={}", match &r { Err(_) => "no answer".to_string(), Ok(Ok(_)) => "answer".to_string(), Ok(Err(e)) => format!("{:?}", e.code()) }));
@@ -794,7 +794,7 @@ pub fn property(tier: Tier) -> Property {
     let bal = Section::new(
         "balanced-endpoints",
         Config { hang_secs: 120, ..Default::default() },
-        "cases: scripted discovery histories on Channel::balance_channel whose endpoints carry DIFFERENT ClientTlsConfigs (valid; roots = another CA; domain_name outside the SAN) for the same TLS server: valid endpoint first and then only the invalid one left, invalid first and then the valid one alone, the same key re-registered with the other settings. A balanced channel connects with tonic's own TCP connector, so this section alone uses a real loopback socket and real time (each execution starts its own tonic TLS server on 127.0.0.1, fixture PKI). Oracle: a call made while only endpoints that cannot authenticate the server are registered is never answered (1.5 s), a call made while a valid endpoint is registered succeeds (20 s bound). All cases count as non-trivial.",
+        "cases: scripted discovery histories on Channel::balance_channel whose endpoints carry DIFFERENT ClientTlsConfigs (valid; roots = another CA; domain_name outside the SAN) for the same TLS server: valid endpoint first and then only the invalid one left, invalid first and then the valid one alone, the same key re-registered with the other settings. A balanced channel connects with tonic's own TCP connector, so this section alone uses a real loopback socket and real time (each execution starts its own tonic TLS server on 127.0.0.1, fixture PKI). Oracle: a call made while only endpoints that cannot authenticate the server are registered is never answered (1.5 s), a call made while a valid endpoint is registered succeeds (5 s bound). All cases count as non-trivial.",
         bal_cases(),
         |c: &BalTlsCase| format!("{:?}", c.script),
         bal_body,
